@@ -163,6 +163,21 @@ def stock_transport():
             detail = 'k=0 stocks %r; Y(1) framework %.6f book %.6f' % ({v: ts[v][0] for v in ('HH__F', 'HH__AfterTax')}, got, Y)
             if not book:
                 ok = ok and abs(got - Y) < 1e-3        # (with the book paths the k=1 spending and rate are the book's; only the stocks are compared)
+            # the series as a user reads them (Model.GetTimeSeries), read three times over with time zero suppressed and once more without: the recursion is
+            # stated about what is handed out, so every reading has to be the stored periods (round-9 seed C09-9: the hand-out shared the stored list)
+            stored = {v: list(ts[v]) for v in ('GOOD__SUP_GOOD', 'HH__F', 'HH__AfterTax', 'HH__DEM_GOOD')}
+            m.TimeSeriesSupressTimeZero = True
+            for rep in range(3):
+                for v in stored:
+                    got_v = list(m.GetTimeSeries(v))
+                    if got_v != stored[v][1:]:
+                        ok = False
+                        detail += '; reading %d of %s with time zero suppressed hands out %r, solved periods 1.. are %r' % (rep + 1, v, got_v, stored[v][1:])
+            m.TimeSeriesSupressTimeZero = False
+            for v in stored:
+                if list(m.GetTimeSeries(v)) != stored[v]:
+                    ok = False
+                    detail += '; %s read after the suppressed readings is %r, solved %r' % (v, list(m.GetTimeSeries(v)), stored[v])
             out.append((name, (V0, B0, YD0) + ((book,) if book else ()), ok, detail))
     return out
 
